@@ -96,6 +96,10 @@ func TestC16Binary(t *testing.T) { reloadBinary(t, "C16") }
 // definition files, in particular none that restores an earlier content, is ignored by a reload.
 func TestC17Binary(t *testing.T) { reloadBinary(t, "C17") }
 
+// TestC18Reload: the same histories for C18 - after an edit of the file that only changes the pipeline's env, the
+// commands of newly accepted jobs see the new pipeline-level values (the versions print EXTRA1/EXTRA2).
+func TestC18Reload(t *testing.T) { reloadBinary(t, "C18") }
+
 func reloadBinary(t *testing.T, prop string) {
 	bin := filepath.Join(os.Getenv("VERIF_BIN"), "prunner")
 	if _, err := os.Stat(bin); err != nil {
